@@ -343,6 +343,102 @@ func evalC09(c c09Case) *Failure {
 	return nil
 }
 
+// ---- configuration changed at run time: the gate follows the CA / rule that is configured when the server (re)starts ----
+
+type c09Reconfig struct {
+	Rule  bool     `json:"rule"`
+	Steps []string `json:"steps"` // ca=root | ca=foreign | rule=on | rule=off, each followed by Restart (or Stop+Start)
+	How   string   `json:"how"`   // restart | stopstart
+}
+
+func evalC09Reconfig(c c09Reconfig) *Failure {
+	lifecycleMu.Lock()
+	defer lifecycleMu.Unlock()
+	p := sharedPKI()
+	srv := redis.NewServer()
+	rec := doubles.NewRecorder()
+	srv.SetCommandHandler(rec)
+	srv.ServerCert, srv.ServerKey, srv.CACerts = p.Server.CertPEM, p.Server.KeyPEM, p.Root.CertPEM
+	if c.Rule {
+		srv.AddAuthenticator(auth.NewCertificateAuthenticatorWith(auth.WithCommonName(c09Rule)))
+	}
+	_, tlsPort, err := startOnFreePorts(srv, true)
+	if err != nil {
+		return failf("harness|start", "Start: %v", err)
+	}
+	defer srv.Stop()
+	tlsAddr := fmt.Sprintf("127.0.0.1:%d", tlsPort)
+	ca := "root"
+	// executed reports whether a GET of a client with this credential reached the handler
+	executed := func(cred string) (bool, string) {
+		key := fmt.Sprintf("reconf-%d", atomic.AddInt64(&c09Counter, 1))
+		raw, err := net.DialTimeout("tcp", tlsAddr, 5*time.Second)
+		if err != nil {
+			return false, "dial: " + err.Error()
+		}
+		defer raw.Close()
+		tc := tls.Client(raw, c09ClientConfig(p, cred))
+		tc.SetDeadline(time.Now().Add(5 * time.Second))
+		tc.Handshake()
+		v, err := roundTrip(tc, resp.Cmd("GET", key).Bytes(), 5*time.Second)
+		n := 0
+		for _, cl := range rec.Snapshot() {
+			if len(cl.Args) > 0 && cl.Args[0] == key {
+				n++
+			}
+		}
+		return n > 0, fmt.Sprintf("%v, %v", v, err)
+	}
+	check := func(when string) *Failure {
+		// clients of the configured CA (with the right name) are served, clients of the other CA are not
+		own, other := "right", "foreign"
+		if ca == "foreign" {
+			own, other = "foreign", "right"
+		}
+		if ok, info := executed(other); ok {
+			return failf("c09|executed-for-rejected-client|stale-ca", "%s: %s: a command was executed for a client whose certificate chains to the CA that is NOT configured (configured: %s) (%s)", c.describe(), when, ca, info)
+		}
+		if ok, info := executed(own); !ok {
+			return failf("c09|accepted-client-not-served|stale-ca", "%s: %s: a client whose certificate chains to the configured CA (%s) and carries the right name was not served (%s)", c.describe(), when, ca, info)
+		}
+		return nil
+	}
+	if f := check("after the first Start"); f != nil {
+		if strings.HasPrefix(f.Key, "c09|accepted") {
+			return failf("harness|first-start", "%s", f.Detail)
+		}
+		return f
+	}
+	for i, st := range c.Steps {
+		switch st {
+		case "ca=foreign":
+			srv.CACerts, ca = p.Foreign.CertPEM, "foreign"
+		case "ca=root":
+			srv.CACerts, ca = p.Root.CertPEM, "root"
+		}
+		if c.How == "stopstart" {
+			srv.Stop()
+			err = srv.Start()
+		} else {
+			err = srv.Restart()
+		}
+		if err != nil {
+			if strings.Contains(err.Error(), "address already in use") {
+				return failf("harness|restart", "%v", err)
+			}
+			return failf("c09|restart-failed", "%s: step %d (%s): %v", c.describe(), i, st, err)
+		}
+		if f := check(fmt.Sprintf("after step %d (%s) and %s", i, st, c.How)); f != nil {
+			return f
+		}
+	}
+	return nil
+}
+
+func (c c09Reconfig) describe() string {
+	return fmt.Sprintf("rule=%v steps=%v how=%s", c.Rule, c.Steps, c.How)
+}
+
 // ---- child-process tier: broken handshakes of every shape against a server process of its own ----
 
 type c09Junk struct {
@@ -490,13 +586,14 @@ func genC09Junk(rt *rapid.T) c09Junk {
 func init() {
 	register("c09.scenario", evalC09)
 	register("c09.child", evalC09Child)
+	register("c09.reconfig", evalC09Reconfig)
 }
 
 func TestC09(t *testing.T) {
 	h := newHarness(t, "C09", "the finite product, enumerated completely: server configuration {CA only, CA + common-name rule, rule + password} x client credential {no certificate, plain-text bytes on the TLS port, self-signed, leaf of a foreign CA, expired leaf, "+
 		"right CA wrong name, right name only on an intermediate CA, right CA right name} x handshake fault {complete, abort after ClientHello, stall (held open), garbage record} x order {faulty client first, well-behaved client first} = 192 scenarios on real loopback TCP/TLS "+
 		"with certificates generated at run time; a rejected client comes back a second time with a TLS session cache; bursts of 40 failing handshakes on one running server; thorough adds bursts of 2..5 faulty clients and shuffled orders. "+
-		"CHILD tier: the example server as a process of its own with a TLS listener; faulty clients send generated junk (random bytes, record headers of every type/version/length, SSLv2-style first bytes, oversized records, plain RESP/HTTP) as first bytes or after a well-formed ClientHello; after each the process must be alive and serve a valid TLS and a plain client. Oracle: handler calls attributed to client identities by unique keys may only stem from clients whose chain verifies and - with a rule - whose LEAF carries the name "+
+		"RECONFIGURATION: the configured CA is replaced while the server runs and the server restarted (Restart or Stop+Start, with and without a name rule): afterwards only clients of the CA configured now are served. CHILD tier: the example server as a process of its own with a TLS listener; faulty clients send generated junk (random bytes, record headers of every type/version/length, SSLv2-style first bytes, oversized records, plain RESP/HTTP) as first bytes or after a well-formed ClientHello; after each the process must be alive and serve a valid TLS and a plain client. Oracle: handler calls attributed to client identities by unique keys may only stem from clients whose chain verifies and - with a rule - whose LEAF carries the name "+
 		"(and that have sent AUTH where a password is set); rejected clients are disconnected; after each faulty client and while a staller is connected a valid TLS client handshakes and is served and a plain client gets a reply. "+
 		"Non-trivial: every scenario with a non-accepted credential or a fault other than complete. Distinct = distinct scenario tuple.")
 	defer h.Finish()
@@ -542,6 +639,24 @@ product:
 		}
 		h.Col.Case(true, []byte(c.String()), "long-burst")
 		h.Report("c09.scenario", c, evalC09(c))
+	}
+
+	// the configured CA replaced at run time, then Restart / Stop+Start
+	{
+		k := 0
+		for _, rule := range []bool{false, true} {
+			for _, how := range []string{"restart", "stopstart"} {
+				for _, steps := range [][]string{{"ca=foreign"}, {"ca=foreign", "ca=root"}, {"ca=root", "ca=foreign"}} {
+					k++
+					if k%h.NShards != h.Shard {
+						continue
+					}
+					c := c09Reconfig{Rule: rule, Steps: steps, How: how}
+					h.Col.Case(true, []byte("reconfig "+c.describe()), "ca-replaced-at-run-time")
+					h.Report("c09.reconfig", c, evalC09Reconfig(c))
+				}
+			}
+		}
 	}
 
 	// broken handshakes of every shape against a server process of its own (a panic there is a process death)
